@@ -203,6 +203,8 @@ protected:
     }
 
     strCurr[lenCurr - 1] = 0;
+    // The ending mark is not part of the string
+    lenCurr--;
   }
 };
 
